@@ -63,6 +63,7 @@ fn dispatch(op: &str, a: &[&str]) -> Option<String> {
         "rkraw" => crate::ops5::rkraw_op(a),
         "findfree" => crate::ops5::findfree_op(a),
         "ppforeign" => crate::ops5::ppforeign_op(a),
+        "giant" => crate::ops5::giant_op(a),
         "find" => crate::ops3::find_op(a),
         "fnew" => crate::ops3::fnew_op(a),
         "rfind" => crate::ops3::rfind_op(a),
@@ -207,6 +208,47 @@ fn kmp_first(hay: &[u8], needle: &[u8]) -> Option<usize> {
         }
     }
     None
+}
+
+/// every occurrence (overlapping ones included), ascending: by definition for small inputs, by
+/// one KMP pass for huge ones
+pub fn all_occurrences(hay: &[u8], needle: &[u8]) -> Vec<usize> {
+    let m = needle.len();
+    if m > hay.len() {
+        return Vec::new();
+    }
+    if m == 0 {
+        return (0..=hay.len()).collect();
+    }
+    if (hay.len() - m).saturating_mul(m) <= NAIVE_LIMIT {
+        return (0..=hay.len() - m).filter(|&i| &hay[i..i + m] == needle).collect();
+    }
+    let mut fail = vec![0usize; m];
+    let mut k = 0;
+    for i in 1..m {
+        while k > 0 && needle[i] != needle[k] {
+            k = fail[k - 1];
+        }
+        if needle[i] == needle[k] {
+            k += 1;
+        }
+        fail[i] = k;
+    }
+    let mut out = Vec::new();
+    k = 0;
+    for (i, &b) in hay.iter().enumerate() {
+        while k > 0 && b != needle[k] {
+            k = fail[k - 1];
+        }
+        if b == needle[k] {
+            k += 1;
+        }
+        if k == m {
+            out.push(i + 1 - m);
+            k = fail[k - 1];
+        }
+    }
+    out
 }
 
 pub fn naive_find(hay: &[u8], needle: &[u8]) -> Option<usize> {
@@ -477,7 +519,7 @@ fn pairidx(a: &[&str]) -> Option<String> {
 
 /// Oracle for a prefilter answer: `SOUND` when the candidate is at or before the first
 /// occurrence and carries the pair bytes (or `none` with no occurrence).
-fn prefilter_oracle(
+pub(crate) fn prefilter_oracle(
     hay: &[u8],
     needle: &[u8],
     i1: usize,
